@@ -2,14 +2,15 @@
   C08 model driver.  Line protocol (one op per line, one answer line per op):
     B <mode> <program tokens>   reference semantics: "<completion> | <events>"   (mode F|S|G)
     K <program tokens>          compileCF listing (function mode), instructions separated by ';'
-    A <mode> <cof> <kc> <prog>  B ## V ## W ## K in one line (V/W/K only for mode F)
-    W <cof> <keepCatch> <prog>  mini-VM with the given quirks of today's code: "<completion> | <events>"
+    A <mode> <prog>             B ## V ## W ## K ## S1 in one line (V/W/K/S1 only for mode F; S1 = stage-1 program and compileS p = compileCF p)
+    W <prog>                    mini-VM on compileCF output: "<completion> | <events>"
     V <program tokens>          model-internal: runVM (compileCF p) vs refSem p -> "ok" | "DIFF ..."
   Anything after a token "@@" is ignored (the Go harness reads its JavaScript from there).
 -/
 import GojaModel.Base.Proto
 import GojaModel.C08.Model
 import GojaModel.C08.Compile
+import GojaModel.C08.CompileS
 
 namespace GojaModel.C08.Driver
 open GojaModel.C08
@@ -137,26 +138,26 @@ def handle (line : String) : String :=
       let vs := showRes "F" v
       if rs == vs then "ok" else s!"DIFF ref[{rs}] vm[{vs}]"
     | none => "PARSE-ERROR"
-  | "A" :: mode :: cof :: kc :: toks =>
+  | "A" :: mode :: toks =>
     -- all answers for one program in one line: B ## V ## W ## K  (V/W/K only meaningful in mode F)
     match parseProg toks with
     | some p =>
       let r := refSem p
       let b := showRes mode r
       if mode.startsWith "F" then
-        let v := runProgram p
+        let (v, nt, ni) := runProgramWith 200000 p
         let rs := showRes "F" r
         let vs := showRes "F" v
         let vres := if rs == vs then "ok" else s!"DIFF ref[{rs}] vm[{vs}]"
-        let (w, nt, ni) := runProgramWith { cof := cof == "1", keepCatch := kc == "1" } 200000 p
-        let wres := showRes "F" w ++ (if nt != 0 || ni != 0 then s!" LEAK={nt},{ni}" else "")
-        b ++ " ## " ++ vres ++ " ## " ++ wres ++ " ## " ++ showCode (compileProgram p)
+        let wres := vs ++ (if nt != 0 || ni != 0 then s!" LEAK={nt},{ni}" else "")
+        let sres := if stage1 p then (if (compileS p).toArray == compileProgram p then "S1=" else "S1-DIFF") else "-"
+        b ++ " ## " ++ vres ++ " ## " ++ wres ++ " ## " ++ showCode (compileProgram p) ++ " ## " ++ sres
       else b
     | none => "PARSE-ERROR"
-  | "W" :: cof :: kc :: toks =>
+  | "W" :: toks =>
     match parseProg toks with
     | some p =>
-      let (r, nt, ni) := runProgramWith { cof := cof == "1", keepCatch := kc == "1" } 200000 p
+      let (r, nt, ni) := runProgramWith 200000 p
       showRes "F" r ++ (if nt != 0 || ni != 0 then s!" LEAK={nt},{ni}" else "")
     | none => "PARSE-ERROR"
   | _ => "BAD-OP"
